@@ -615,3 +615,75 @@ def c04(run):
     validate_records(run, records, "XtTotal.tla", "XtTotal.cfg", "a call did not end in success or an error value", "xttotal")
     run.assumptions += ["deadline: 60 s per batch of 20 000 in-process cases (a normal batch takes about 1 s), 20 s per binary run; after 3 crashes or missed deadlines the in-process run is cut short", "stack overflow is observed as the death of the isolated worker / binary"]
     run.exhaustive = False
+
+
+# ----------------------------------------------------------------------------- XtCli (C13, C14, C15)
+
+def cli_stage(run, cfg, what, tty_maxlen=2, file_maxlen=2):
+    import clicheck, cli
+    root = clicheck.prepare("%s-%s" % (run.pid, run.tier))
+    table = clicheck.lib_table(root)
+    clicheck.write_clilib(table, os.path.join(common.SPEC, "CliLib.tla"))
+    mc = run_tlc("MC_XtCli.tla", cfg, workers=8)
+    check_vacuity(mc, ["ParseStep", "ParseDone", "Guard", "ProcessInput", "FlushAfterInput", "ExitOk"])
+    run.add_mc(mc, "XtCli: " + what)
+    gen_cfg = cfg.replace("MC_", "Gen_")
+    gen = run_tlc("MC_XtCli.tla", gen_cfg, workers=8, coverage=False)
+    runs = [json.loads(x) for x in sorted(set(tlc_printed(gen["out"], "RUN")))]
+    if not runs:
+        raise ToolError("no CLI runs exported")
+    xt_dbg, xt_rel = common.build_xt("debug"), common.build_xt("release")
+    stdin_bytes = clicheck.CONTENTS[clicheck.STDIN]
+    jobs = []
+    for n, r in enumerate(runs):
+        kind = r["stdout"]
+        if kind == "tty" and len(r["argv"]) > tty_maxlen:
+            continue
+        jobs.append((r, kind, xt_dbg if n % 2 else xt_rel))
+        if kind == "pipe" and len(r["argv"]) <= file_maxlen:
+            jobs.append((r, "file", xt_rel if n % 2 else xt_dbg))
+
+    def one(job):
+        pred, kind, binary = job
+        real = clicheck.run_real(binary, pred["argv"], root, kind, stdin_bytes)
+        return pred, kind, binary, clicheck.judge(pred, real, table), real
+    results = cli.pmap(one, jobs, workers=12)
+    nontrivial = set()
+    for pred, kind, binary, bad, real in results:
+        run.evaluations += 1
+        if len(pred["argv"]) >= 2:
+            nontrivial.add((tuple(pred["argv"]), kind, os.path.basename(os.path.dirname(binary))))
+        if bad and len(run.violations) < 8:
+            run.violation("xt %s (stdout: %s, %s binary): %s" % (" ".join(pred["argv"]), kind, "debug" if "debug" in binary else "release", "; ".join(bad)),
+                          {"kind": "xtcli-run", "argv": pred["argv"], "stdout_kind": kind, "predicted": pred,
+                           "observed": {"exit": real["exit"], "signal": real["signal"], "stdout": real["stdout"][:300].decode("utf-8", "replace"), "stderr": real["stderr"][:300].decode("utf-8", "replace")}})
+    run.nontrivial += len(nontrivial)
+    run.samples += [{"argv": r["argv"], "stdout": r["stdout"], "predicted": {k: r[k] for k in ("exit", "text", "stderr", "errpath", "done")}} for r in runs[len(runs) // 2:len(runs) // 2 + 3]]
+    run.stages.append({"stage": "replay", "what": "argument vectors exported by TLC executed on the real binaries", "runs": len(results), "distinct_argv": len(runs)})
+    run.traces += len(results)
+    shutil_rm(root)
+
+
+def shutil_rm(path):
+    import shutil
+    shutil.rmtree(path, ignore_errors=True)
+
+
+def c13(run):
+    run.rule = ("each case = one argument vector of <= 3 tokens over a 22-token vocabulary (options in attached/detached form, duplicates, missing values, invalid names, "
+                "unknown options, -h/--help/-V, '--', '-', existing/missing/directory/malformed/undetectable operands) x stdout kind (pipe, file, pty); TLC computes the outcome "
+                "XtCli predicts (exit status, what is on stdout, the class of stderr and the input it names) and checks the C13 invariants in every state; each vector is run on "
+                "the debug or release binary and compared; non-trivial = at least 2 tokens")
+    cli_stage(run, _q(run, "MC_XtCli.cfg", "MC_XtCli_thorough.cfg"), "exit status and stream discipline for every argument vector")
+    run.assumptions += ["the sandbox runs as root, so 'unreadable' operands are represented by missing files and a directory",
+                        "what the library does for each (content, source selection, target) is measured with xt::translate_* and given to TLC as the constant Lib"]
+    run.exhaustive = True
+
+
+def c14(run):
+    run.rule = ("each case = one argument vector over a vocabulary centred on source-format resolution (-f in attached/detached form, extensions in several letter cases, "
+                "multi-dot and hidden names, no or misleading extension, '-' at each position and twice, a directory) x 4 targets; XtCli predicts which source selection "
+                "(flag, extension, detection) each input gets, and stdout must equal the library's output for exactly that selection on the same bytes")
+    cli_stage(run, _q(run, "MC_XtCli_c14.cfg", "MC_XtCli_c14_thorough.cfg"), "source-format resolution order, stdin at most once, stdout = library output", tty_maxlen=0, file_maxlen=3)
+    run.assumptions += ["regular files reach the library as slices (mmap), standard input as a reader"]
+    run.exhaustive = True
